@@ -190,22 +190,30 @@ macro_rules! pick_table {
     };
 }
 
-pick_table!(u8, [0, 1, 9, 10, 99, 100, 255], |h| h as u8);
-pick_table!(u16, [0, 1, 9, 10, 999, 1000, 65535], |h| h as u16);
+// Convention: index 3 holds the value with the LONGEST rendering of its type, index 4 the runner-up, so
+// that "every field at index 3" is the all-extremes combination (see `gen_payload`).
+pick_table!(u8, [0, 1, 9, 255, 100, 10, 99], |h| h as u8);
+pick_table!(u16, [0, 1, 9, 65535, 10000, 10, 999], |h| h as u16);
 pick_table!(u64, [0, 1, 10, u64::MAX, 1 << 63, 12345], |h| h);
-pick_table!(usize, [0, 1, 10, usize::MAX, 12345], |h| h as usize);
+pick_table!(usize, [0, 1, 10, usize::MAX, usize::MAX / 2, 12345], |h| h as usize);
 pick_table!(i8, [0, 1, -1, i8::MIN, i8::MAX, 10, -10], |h| h as i8);
 pick_table!(i32, [0, 1, -1, i32::MIN, i32::MAX, 10, -10, 1000], |h| h as i32);
 pick_table!(i64, [0, 1, -1, i64::MIN, i64::MAX, 42, -1000], |h| h as i64);
 pick_table!(i128, [0, 1, -1, i128::MIN, i128::MAX], |h| (h as i128) << 40);
-pick_table!(bool, [false, true], |h| h & 1 == 1);
-pick_table!(char, ['a', 'Z', '0', ' ', 'é', 'ß', '\u{1F600}', '{', '}', '"', '\\', '\n'], |h| char::from_u32((h % 0xD000) as u32).unwrap_or('x'));
-pick_table!(f64, [0.0, -0.0, 1.0, -1.5, 0.1, 1e300, 1e-300, f64::NAN, f64::INFINITY, f64::NEG_INFINITY, 123456.789, 2.5], |h| (h as i64 as f64) / 1024.0);
-pick_table!(f32, [0.0, -0.0, 1.0, -1.5, 0.1, f32::NAN, f32::INFINITY, 2.5], |h| (h as i32 as f32) / 64.0);
+pick_table!(bool, [false, true, true, false, true], |h| h & 1 == 1);
+pick_table!(char, ['a', 'Z', '0', '\u{1F600}', '\u{10FFFF}', 'é', 'ß', ' ', '{', '}', '"', '\\', '\n'], |h| char::from_u32((h % 0xD000) as u32).unwrap_or('x'));
+pick_table!(f64, [0.0, -0.0, 1.0, f64::MIN, f64::MAX, 0.1, 1e300, 1e-300, f64::NAN, f64::INFINITY, f64::NEG_INFINITY, 123456.789, 2.5, -1.5], |h| (h as i64 as f64) / 1024.0);
+pick_table!(f32, [0.0, -0.0, 1.0, f32::MIN, f32::MAX, 0.1, f32::NAN, f32::INFINITY, 2.5, -1.5], |h| (h as i32 as f32) / 64.0);
 
 const STRS: &[&str] = &[
-    "", "a", "é", "héllo wörld", "{}", "a b", " lead", "trail ", "UPPER", "MiXeD", "日本語", "{0}", "}}{{", "x\ny", "ß", "İ",
+    "", "a", "é",
+    // index 3: the longest one (several hundred bytes, multi-byte characters included)
+    "0123456789 the quick brown fox jumps over the lazy dog; zażółć gęślą jaźń; 日本語のテキスト; 0123456789 the quick brown fox jumps over the lazy dog; ZAŻÓŁĆ GĘŚLĄ JAŹŃ; \u{1F600}\u{1F601}\u{1F602} 0123456789 the quick brown fox jumps over the lazy dog 0123456789 the quick brown fox jumps over the lazy dog",
+    // index 4: longer than 64 and 96 bytes
+    "a-somewhat-longer-string-of-more-than-one-hundred-bytes-so-that-small-fixed-size-buffers-overflow-0123456789",
+    "héllo wörld", "{}", "a b", " lead", "trail ", "UPPER", "MiXeD", "日本語", "{0}", "}}{{", "x\ny", "ß", "İ",
     "a-somewhat-longer-string-of-forty-two-bytes", "\u{1F600}\u{1F601}", "e\u{301}", "\t",
+    "sixty-five-bytes-long-string-sixty-five-bytes-long-string-123456",
 ];
 
 pub fn pick_str(i: u64) -> &'static str {
@@ -266,8 +274,20 @@ impl Pick for () {
 /// Index generator: mostly table values, sometimes derived ones.
 pub fn gen_pick_index(rng: &mut Rng) -> u64 {
     if rng.chance(75, 100) {
-        rng.below(20)
+        rng.below(24)
     } else {
-        20 + rng.below(1 << 32)
+        24 + rng.below(1 << 32)
+    }
+}
+
+/// Payload indices for all fields of one value. Besides independent draws, a share of the runs puts
+/// EVERY field at the same extreme index (3 = longest rendering of each type, 4 = runner-up), because
+/// fixed-size buffers and length estimates only fail when all parts are maximal at once.
+pub fn gen_payload(rng: &mut Rng, nfields: usize) -> Vec<u64> {
+    match rng.weighted(&[84, 9, 4, 3]) {
+        0 => (0..nfields).map(|_| gen_pick_index(rng)).collect(),
+        1 => vec![3; nfields],
+        2 => vec![4; nfields],
+        _ => (0..nfields).map(|_| 3 + rng.below(2)).collect(),
     }
 }
